@@ -66,6 +66,7 @@ def abstract(root: Path, snaps: Path, log, before_state):
     taken just before the rename."""
     fid, labels, idx = dict(before_state["fid"]), [], []
     begun, closed = set(), set(before_state["closed"])
+    closes = []                         # (directory code, shard file name) in closing order: the model session of M-TREE
     def f_of(rel):
         return fid.setdefault(Path(rel).name, len(fid))
     for e in log:
@@ -84,6 +85,7 @@ def abstract(root: Path, snaps: Path, log, before_state):
                 if name not in begun:           # written by native code (TFRecordWriter): not visible to the audit hook
                     begun.add(name); labels.append(["shardBegin", f_of(rel)]); idx.append(e["k"])
                 closed.add(name); labels.append(["shardClose", f_of(rel)]); idx.append(e["k"])
+                closes.append((T.dir_code(Path(rel).parent), name))
             elif name.startswith("update_") and "w" in mode:
                 labels.append(["tmpWrite", T.dir_code(Path(rel).parent)]); idx.append(e["k"])
         elif tag == "rename":
@@ -100,7 +102,18 @@ def abstract(root: Path, snaps: Path, log, before_state):
             elif dst == "dataset_info.json":
                 roots = [T.dir_code(Path(r["shard_list_info_file"]["file_path"]).parent) for r in (doc or {}).get("splits", {}).values()]
                 labels.append(["installInfo", roots]); idx.append(e["k"])
-    return labels, idx, fid, closed
+    return labels, idx, fid, closed, closes
+
+
+def reader_view(snapdir: Path):
+    """What a reader that opens the snapshot enumerates: {split index: [shard file names in order]} (None if it cannot open)."""
+    from sedpack.io import Dataset
+    try:
+        ds = Dataset(snapdir)
+        return {T.SPLITS.index(name): [Path(si.file_infos[0].file_path).name for si in ds.shard_info_iterator(name)]
+                for name in ds._dataset_info.splits}
+    except Exception:  # noqa: BLE001  (the crash oracle reports unreadable snapshots)
+        return None
 
 
 def disk_state(root: Path, fid):
@@ -127,6 +140,7 @@ def run(ctx):
     from sedpack.io import Dataset
     rng = ctx.rng("c06")
     nsnaps, ntorn, sessions_run, reqs, meta, distinct = 0, 0, 0, [], [], set()
+    ireqs, imeta = [], []
     plans = []
     for i in range(ctx.pick(3, 9)):
         fmt = ["fb", "npz", "tfrec"][i % 3]
@@ -150,6 +164,7 @@ def run(ctx):
         sp.mk(root, fmt=fmt, eps=eps, hashes=("sha256",))        # (the recovery oracle re-computes sha256 digests)
         committed = {0: [], 1: [], 2: []}
         base = 0
+        gid, model_hist = {}, []            # shard file name -> id, stable over the dataset's whole history; M-TREE sessions so far
         for si, se in enumerate(sess):
             snaps = ctx.scratch / f"c06_{ci}_{si}_snaps"; snaps.mkdir()
             fid = {}
@@ -167,10 +182,13 @@ def run(ctx):
             if res["error"]:
                 ctx.report(dict(sig, kind="session-error"), f"session failed: {res['error']}", {"plan": sess, "session_index": si}); break
             # ---- abstraction first (the oracle below truncates files inside the snapshots)
-            labels, idx, fid2, _ = abstract(root, snaps, res["log"], before)
+            labels, idx, fid2, _, closes = abstract(root, snaps, res["log"], before)
             # ---- oracle on every snapshot (and torn variants of files no document names)
             allowed_so_far = {0: [], 1: [], 2: []}
+            real_enum = [reader_view(snaps / f"{res['log'][0]['k']:05d}")] if res["log"] else []
             for e in res["log"]:
+                if e["tag"] == "after-rename" and Path(e["dst"]).name == "shards_list.json":
+                    real_enum.append(reader_view(snaps / f"{e['k']:05d}"))
                 if e["tag"] == "after-write":
                     allowed_so_far[e["split"]].append(e["ex"])
                 sd = snaps / f"{e['k']:05d}"
@@ -208,6 +226,23 @@ def run(ctx):
             # ---- correspondence: the observed effect order is accepted by M-CRASH
             reqs.append({"m": "crash", "closed": before["closed"], "docs": before["docs"], "roots": before["roots"], "trace": labels})
             meta.append((sig, sess, si, labels, idx))
+            # ---- correspondence 2: M-TREE's effect-emitting session (`sessionE`) installs the same documents in the same order,
+            # and every prefix of its installs is the crash state a reader sees on the real directory
+            # one model session entry per closed shard (with write_updates the list is rewritten after every close); the fillers of a
+            # multi-writer call run one after the other (single_process) and are told apart by their uuid directory component
+            fillers = []
+            for d, name in closes:
+                gid.setdefault(name, len(gid))
+                who = tuple(c for c in d[1:2] if c >= 100) if se["kind"] == "multi" else ()
+                if not fillers or fillers[-1][0] != who:
+                    fillers.append((who, []))
+                fillers[-1][1].append([list(d), [[gid[name], 1]]])
+            fillers = [f for _, f in fillers]
+            inv = {v: k for k, v in fid2.items()}
+            observed = [[l[1], [inv.get(f, f"?{f}") for f in l[2]], l[3]] for l in labels if l[0] == "install"]
+            ireqs.append({"m": "installs", "fuel": 8, "sessions": [list(x) for x in model_hist], "fillers": fillers})
+            model_hist.append([w for f in fillers for w in f])
+            imeta.append((sig, sess, si, observed, real_enum, dict(gid)))
             distinct.add((fmt, se["kind"], se.get("sub"), si > 0))
             for s in written: committed[s] += written[s]
             base = res["next"]
@@ -224,7 +259,38 @@ def run(ctx):
         ctx.report({"kind": "correspondence"}, f"M-CRASH refuses the observed effect order at {corr_bad[0]['refused_label']}",
                    {"correspondence": "M-CRASH accepts(observed file-system effect trace)", "theorem": "Sedpack.Crash.C06_reachable_complete / C06_children_first",
                     "cases": corr_bad[:2]}, name="corr", nofail=True)
+    ireps = lean.driver(ireqs) if ireqs else []
+    inst_bad, ninst, ncrash = [], 0, 0
+    for (sig, sess, si, observed, real_enum, gid), rep in zip(imeta, ireps):
+        if "error" in rep:
+            raise RuntimeError(rep)
+        name_of = {v: k for k, v in gid.items()}
+        model = [[d, [name_of.get(f, f"?{f}") for f in files], kids] for d, files, kids in rep["installs"]]
+        ninst += len(model)
+        why = None
+        if not rep["refines"]:
+            why = "the installs of sessionE do not reproduce session's store (driver self-check)"
+        elif model != observed:
+            k = next((i for i, (a, b) in enumerate(zip(model, observed)) if a != b), min(len(model), len(observed)))
+            why = f"install #{k}: model {model[k] if k < len(model) else None} vs observed {observed[k] if k < len(observed) else None}"
+        else:
+            for k, view in enumerate(real_enum):
+                if view is None or k >= len(rep["crash_enum"]):
+                    continue
+                ncrash += 1
+                for s, names in view.items():
+                    m = [name_of.get(f, f"?{f}") for f in rep["crash_enum"][k][s]]
+                    if m != names:
+                        why = f"after {k} installs a reader enumerates {names} for split {T.SPLITS[s]}, the model's crash state {m}"; break
+                if why: break
+        if why:
+            inst_bad.append({"signature": sig, "plan": sess, "session_index": si, "difference": why})
+    if inst_bad and not ctx.violations:
+        ctx.report({"kind": "correspondence-installs"}, f"M-TREE's effect order differs from the real session: {inst_bad[0]['difference']}",
+                   {"correspondence": "sessionE installs = observed renames of shards_list.json (documents and order); prefixes = reader's view at each crash point",
+                    "theorem": "Sedpack.Tree.C06_session_crash_points / C06_session_installs_valid", "cases": inst_bad[:2]}, name="corr-installs", nofail=True)
     ctx.cov.update({
+        "installs_compared": ninst, "crash_states_compared_with_model": ncrash,
         "evaluations": nsnaps + ntorn, "distinct_nontrivial": len(distinct), "traces_validated_against_impl": sessions_run - len(corr_bad),
         "crash_snapshots": nsnaps, "torn_variants": ntorn, "sessions": sessions_run,
         "labels_replayed": sum(len(m[3]) for m in meta),
